@@ -1,16 +1,17 @@
 ----------------------------- MODULE Trace_Trig -----------------------------
 (* C23, binding B: validates the trigger histories recorded by harness/cmd/dml2 -prop c23 against
    SQLTriggers.  trace.ndjson lines:
-     {"ev":"schema","h":n,"tabs":{"t1":<table>},"trigs":[<trigger as created>..]}
-     {"ev":"step","id":n,"stmt":<AST>,"reply":{kind,class,..},"post":{"t1":[rows]},
-      "audit":[[seq,tid,o1..ow,n1..nw]..]}        -- the WHOLE audit table ordered by seq
-   A step is accepted iff, with (rows, aud, kind) = SQLTriggers!TOutcome from the current base table:
+     {"ev":"schema","h":n,"tabs":{<t>:<table>..},"trigs":[<trigger as created>..]}
+     {"ev":"step","id":n,"stmt":<AST>,"reply":{kind,class,..},"post":{<t>:[rows]..},
+      "audit":[[seq,tid,o1..ow,n1..nw]..],"cnt":n}   -- the WHOLE audit table ordered by seq; @cnt
+   A step is accepted iff, with (db, aud, cnt, kind) = SQLTriggers!TOutcome from the current tables:
      kind   the reply kind (ok / error) is the prescribed one
-     base   the base table holds the prescribed rows (bag)
-     audit  the audit entries added by the statement (those after the entries present before it) are
-            EXACTLY the prescribed SEQUENCE: every body once per affected row, in trigger order, BEFORE
-            bodies before and AFTER bodies after each row's edit, OLD / NEW as prescribed, nothing for a
-            failed statement
+     base   every table holds the prescribed rows (bags) -- the tables written by cascading trigger bodies
+            included, with what their own BEFORE triggers assigned to NEW
+     audit  the audit entries added by the statement (those after the entries present before it) are EXACTLY
+            the prescribed SEQUENCE: every body once per affected row at every depth of the cascade, in
+            trigger order and statement order, OLD / NEW as prescribed, nothing for a failed statement
+     cnt    (successful statements) @cnt grew by the number of executed SET @cnt statements
      seq    the sequence numbers of the added entries increase and exceed all earlier ones, and the
             earlier entries are unchanged
    A disagreement prints `MG <json>`; the state is resynchronised to the logged tables.             *)
@@ -18,14 +19,13 @@ EXTENDS SQLTriggers, Json
 
 TraceLog == ndJsonDeserialize("trace.ndjson")
 
-VARIABLES l, tab, trigs, aud
-vars == <<l, tab, trigs, aud>>
+VARIABLES l, cx, db, aud, cnt
+vars == <<l, cx, db, aud, cnt>>
 
-EmptyTab == [cols |-> <<>>, checks |-> <<>>, pk |-> <<>>, uniq |-> <<>>, rows |-> <<>>]
-Init == l = 1 /\ tab = EmptyTab /\ trigs = <<>> /\ aud = <<>>
+Init == l = 1 /\ cx = [tabs |-> <<>>, trigs |-> <<>>] /\ db = <<>> /\ aud = <<>> /\ cnt = 0
 
 Judge(e) ==
-  LET o == TOutcome(tab, trigs, e.stmt, tab.rows)
+  LET o == TOutcome(cx, e.stmt, db, cnt)
       n0 == Len(aud)
       n1 == Len(e.audit)
       prefixOK == n1 >= n0 /\ SubSeq(e.audit, 1, n0) = aud
@@ -33,25 +33,31 @@ Judge(e) ==
       entries == [i \in DOMAIN added |-> Tail(added[i])]           \* without the sequence number
       lastseq == IF n0 = 0 THEN 0 ELSE aud[n0][1].v
       seqOK == \A i \in DOMAIN added : added[i][1].t = "i" /\ added[i][1].v > (IF i = 1 THEN lastseq ELSE added[i - 1][1].v)
+      badtabs == {t \in DOMAIN db : ~BagEqRows(e.post[t], o.db[t], CollsOf(cx.tabs[t]))}
       what == (IF e.reply.kind # o.kind THEN <<"kind">> ELSE <<>>)
-              \o (IF ~BagEqRows(e.post.t1, o.rows, CollsOf(tab)) THEN <<"base">> ELSE <<>>)
+              \o (IF badtabs # {} THEN <<"base">> ELSE <<>>)
               \o (IF entries # o.aud THEN <<"audit">> ELSE <<>>)
+              \o (IF e.reply.kind = "ok" /\ o.kind = "ok" /\ e.cnt # o.cnt THEN <<"cnt">> ELSE <<>>)
               \o (IF ~prefixOK \/ ~seqOK THEN <<"seq">> ELSE <<>>)
       report == IF what = <<>> THEN TRUE ELSE
-                PrintT("MG " \o ToJson([l |-> l, id |-> e.id, what |-> what,
-                                         exp |-> [kind |-> o.kind, class |-> o.class, rows |-> o.rows, aud |-> o.aud], got |-> entries,
-                                         order |-> [tm \in {"before", "after"} |-> [tr \in DOMAIN ExecOrder(trigs, tm, e.stmt.k) |-> ExecOrder(trigs, tm, e.stmt.k)[tr].name]]]))
+                PrintT("MG " \o ToJson([l |-> l, id |-> e.id, what |-> what, badtabs |-> badtabs,
+                                         exp |-> [kind |-> o.kind, class |-> o.class, db |-> o.db, aud |-> o.aud, cnt |-> o.cnt], got |-> entries]))
   IN /\ report
-     /\ tab' = [tab EXCEPT !.rows = e.post.t1]
+     /\ db' = [t \in DOMAIN db |-> e.post[t]]
      /\ aud' = e.audit
+     /\ cnt' = e.cnt
 
 Next ==
   /\ l <= Len(TraceLog)
   /\ l' = l + 1
   /\ LET e == TraceLog[l] IN
-     IF e.ev = "schema" THEN tab' = e.tabs.t1 /\ trigs' = e.trigs /\ aud' = <<>>
-     ELSE IF e.ev = "step" THEN Judge(e) /\ UNCHANGED trigs
-     ELSE UNCHANGED <<tab, trigs, aud>>
+     IF e.ev = "schema" THEN
+        /\ cx' = [tabs |-> e.tabs, trigs |-> e.trigs]
+        /\ db' = [t \in DOMAIN e.tabs |-> e.tabs[t].rows]
+        /\ aud' = <<>>
+        /\ cnt' = 0
+     ELSE IF e.ev = "step" THEN Judge(e) /\ UNCHANGED cx
+     ELSE UNCHANGED <<cx, db, aud, cnt>>
 
 HW == TLCSet(1, l)
 Accepted == TLCGet(1) = Len(TraceLog) + 1
